@@ -26,6 +26,8 @@ PROPS = {
         runs=[
             native("rx-release", "c05", "release"),
             native("rx-debug", "c05", "debug", args={"scale-pct": dict(quick=25, thorough=10)}),
+            # the same generator under Miri: an out-of-bounds or aliasing access in the receive path is a tool report
+            native("rx-miri", "c05", "miri", args={"cases-total": dict(quick=48, thorough=1600), "case-offset": 1000000}, shards=16, timeout=7200),
         ],
     ),
 
@@ -45,6 +47,7 @@ PROPS = {
         runs=[
             native("sched-release", "c01", "release", args={"family": "c01", "scale-pct": dict(quick=500, thorough=200)}),
             native("sched-debug", "c01", "debug", args={"family": "c01", "scale-pct": dict(quick=60, thorough=10)}),
+            native("sched-miri", "c01", "miri", args={"family": "c01", "cases-total": dict(quick=16, thorough=160), "case-offset": 1000000}, shards=16, timeout=7200),
         ],
     ),
     "C02": dict(
@@ -61,6 +64,7 @@ PROPS = {
         runs=[
             native("sched-release", "c01", "release", args={"family": "c02", "scale-pct": dict(quick=500, thorough=200)}),
             native("sched-debug", "c01", "debug", args={"family": "c02", "scale-pct": dict(quick=60, thorough=10)}),
+            native("sched-miri", "c01", "miri", args={"family": "c02", "cases-total": dict(quick=16, thorough=160), "case-offset": 1000000}, shards=16, timeout=7200),
             # free-running OS threads (no baton) under ThreadSanitizer: real weak-memory executions
             native("free-tsan", "c02free", "tsan", args={"reqs": dict(quick=12, thorough=40)}, shards=dict(quick=8, thorough=16)),
             # the same workload, tiny, under Miri (data-race detector + Stacked Borrows + weak-memory emulation),
@@ -82,6 +86,7 @@ PROPS = {
         runs=[
             native("hist-release", "c03", "release"),
             native("hist-debug", "c03", "debug", args={"scale-pct": dict(quick=30, thorough=10)}),
+            native("hist-miri", "c03", "miri", args={"cases-total": dict(quick=320, thorough=8000), "case-offset": 1000000}, shards=16, timeout=7200),
         ],
     ),
     "C04": dict(
@@ -98,6 +103,7 @@ PROPS = {
         runs=[
             native("enc-release", "c04", "release"),
             native("enc-debug", "c04", "debug", args={"scale-pct": dict(quick=30, thorough=5)}),
+            native("enc-miri", "c04", "miri", args={"cases-total": dict(quick=32, thorough=480), "case-offset": 1000000}, shards=16, timeout=7200),
         ],
     ),
 
@@ -106,14 +112,15 @@ PROPS = {
         engine="pduloop",
         technique="runtime monitoring under virtual time: (1) complete enumeration of retry policy x lost-transmission subsets x late-poll placement with transmission count/byte-identity/result/time oracles; (2) baton-scheduled executions with a clock actor, where the deadline, the drop of the future, TX and RX are each forced at every yield-point index of a 1-slot victim+competitor scenario, plus seeded random schedules; monitors M-deadline, M-route for the competitor, M-excl, slot conservation",
         level_text=("Fault enumeration. Part 1 (c06d) enumerates every combination of RetryBehaviour None/Count(0..3)/Forever, every subset of the first four transmissions lost, response-received-before-the-deadline-is-examined yes/no and three timeouts: transmissions must be exactly 1+retries when all are lost, exactly k+1 when transmission k is answered, byte-identical, the result Timeout(Pdu) or the response (which wins over an expired deadline), resolved within (retries+2)*timeout of virtual time, Forever still retransmitting after 7 periods. "
-                    "Part 2 runs victim tasks (deadlines 50-1000 us, retries 0..3/forever, 0-100 % loss, abandonment at any moment, early delivery) against a competitor task without deadline on 1-2 slots under the baton scheduler with a clock actor: half the cases are a systematic single-pre-emption sweep (switch to actor t at step i for all i<160, t in TX/RX/clock/competitor/victim, everything else deterministic), half seeded random/PCT schedules. The competitor must receive exactly its own responses, no window onto a buffer may overlap another party's, no slot may be re-initialised while TX/RX still holds a claim, retransmissions must be byte-identical and at most 1+retries, no panic, and all slots free at quiescence."),
+                    "Part 2 runs victim tasks (deadlines 50-1000 us, retries 0..3/forever, 0-100 % loss, abandonment at any moment, early delivery) against a competitor task without deadline on 1-2 slots under the baton scheduler with a clock actor: half the cases are a systematic single-pre-emption sweep over the 115200-point space (switch to actor t at step i, i<160, t in TX/RX/clock/competitor/victim) x (1|2 requests) x (retries 0|1|2) x (all|no transmissions lost) x (abandon never|always) x (early delivery) x (sends ok | first send of every frame fails or is partial), visited through a bijection so that n cases are n distinct, evenly spread points (the thorough tier visits all of them), half seeded random/PCT schedules. The competitor must receive exactly its own responses, no window onto a buffer may overlap another party's, no slot may be re-initialised while TX/RX still holds a claim, retransmissions must be byte-identical and at most 1+retries, no panic, and all slots free at quiescence."),
         level_note="Virtual time: deadlines fire only when the clock actor is scheduled. The exact-count clause assumes TX services every sendable frame before the next deadline (true by construction in part 1, not assumed in part 2, which only checks the upper bound). async-io timers of the std build are not exercised.",
         rule="case = one execution (part 2: configuration + schedule, distinct by event-trace and schedule hash; non-trivial = interleaving on a slot or expiry/abandon/loss happened) or one enumerated tuple (part 1, all distinct); aux_distinct counts distinct slot-state vectors and distinct (step, actor) sweep points",
         assumptions=["virtual clock (embassy-time driver implemented by the harness)", "sequentially consistent interleavings"],
         min_distinct=dict(quick=6000, thorough=150000),
         required_counters=["enumeration_complete", "timed_out", "completed_with_response", "response_received_before_deadline_examined", "forever_still_retrying",
                            "cfg.systematic_single_preemption_sweep", "timeouts", "retransmissions", "wire_losses", "requests_abandoned", "forever_policy_observed_8_periods",
-                           "transition.swap:Sending->Abandoned", "transition.swap:RxBusy->Abandoned", "transition.swap:Sent->Sendable", "site.PollTimerFired"],
+                           "transition.swap:Sending->Abandoned", "transition.swap:RxBusy->Abandoned", "transition.swap:Sent->Sendable", "site.PollTimerFired",
+                           "send_failures", "transition.abandoned-freed-after-failed-send", "sweep_points_with_failing_first_send"],
         exhaustive_counter="enumeration_complete",
         exhaustive_note="part 1 (policy x lost-subset x late-poll x timeout) is enumerated completely on every run",
         runs=[
@@ -121,6 +128,8 @@ PROPS = {
             native("deadline-enum-debug", "c06d", "debug", shards=2),
             native("sched-release", "c01", "release", args={"family": "c06", "scale-pct": dict(quick=600, thorough=200)}),
             native("sched-debug", "c01", "debug", args={"family": "c06", "scale-pct": dict(quick=40, thorough=10)}),
+            # deadlines, retries and abandonment inside the TX/RX windows under Miri (virtual clock: hook commit c4c4ebaf)
+            native("sched-miri", "c01", "miri", args={"family": "c06", "cases-total": dict(quick=16, thorough=320), "case-offset": 1000000}, shards=16, timeout=7200),
         ],
     ),
 
@@ -260,7 +269,8 @@ PROPS = {
         assumptions=[],
         min_distinct=dict(quick=300, thorough=30000),
         required_counters=["op.read:expedited", "op.read:normal", "op.read:segmented", "op.write", "op.abort", "op.emergency", "op.wrong-object", "op.read-array", "op.write-array", "op.stale-out-mailbox", "read_mbx.16"],
-        runs=[native("coe-release", "c15", "release"), native("coe-debug", "c15", "debug", args={"scale-pct": dict(quick=30, thorough=5)})],
+        runs=[native("coe-release", "c15", "release"), native("coe-debug", "c15", "debug", args={"scale-pct": dict(quick=30, thorough=5)}),
+              native("coe-miri", "c15", "miri", args={"cases-total": dict(quick=16, thorough=32), "case-offset": 1000000}, shards=16, timeout=7200, tiers=('thorough',))],
     ),
     "C16": dict(
         level="exploration",
@@ -273,7 +283,8 @@ PROPS = {
         assumptions=[],
         min_distinct=dict(quick=2000, thorough=200000),
         required_counters=["entry.sdo_read_u32", "entry.sdo_write", "entry.sdo_info_list", "entry.sdo_info_quantities", "reply.mutated", "reply.emergency", "reply.segment", "device_refills_forever", "outcome.value", "outcome.error"],
-        runs=[native("mbx-release", "c16", "release"), native("mbx-debug", "c16", "debug", args={"scale-pct": dict(quick=40, thorough=10)})],
+        runs=[native("mbx-release", "c16", "release"), native("mbx-debug", "c16", "debug", args={"scale-pct": dict(quick=40, thorough=10)}),
+              native("mbx-miri", "c16", "miri", args={"cases-total": dict(quick=16, thorough=32), "case-offset": 1000000}, shards=16, timeout=7200, tiers=('thorough',))],
     ),
 
     "C17": dict(
@@ -316,3 +327,14 @@ PROPS = {
         runs=[native("tasks-release", "c20", "release"), native("tasks-debug", "c20", "debug", args={"scale-pct": dict(quick=20, thorough=5)})],
     ),
 }
+
+# Sanitizer variants are part of the deciding technique: say so in every check that has one.
+for _pid, _c in PROPS.items():
+    _kinds = {r["build"] for r in _c["runs"]}
+    _extra = []
+    if "miri" in _kinds and "Miri" not in _c["technique"]:
+        _extra.append("the same workload (other cases) under Miri — undefined behaviour, Stacked Borrows and data-race interpreter — where a tool report is a violation")
+    if "tsan" in _kinds and "ThreadSanitizer" not in _c["technique"]:
+        _extra.append("a free-running multi-thread variant under ThreadSanitizer")
+    if _extra:
+        _c["technique"] += "; " + "; ".join(_extra)
